@@ -4,6 +4,7 @@ theorems are in Props/C09b).  Only property theorems and non-vacuity examples li
 helper lemmas are in Proofs/Cmap4.
 -/
 import SfntV.Proofs.Cmap4
+import SfntV.Proofs.Cmap4Fits
 
 namespace SfntV.Props.C09
 open SfntV SfntV.Cmap4
@@ -40,6 +41,15 @@ theorem C09_fmt4 (m : M) (lang : Nat) (path : List Seg) (b : Bytes) (h : IsPath 
     (hlen : path.length < 32768) (hb : encode m lang path = some b) :
     ∀ c, c < 65536 → specLookupBytes b c = m c % 65536 :=
   lookup_encode m lang path b h hlen hb
+
+/-- The statement at full strength on the property's domain ("up to the 64 KiB subtable limit"):
+for every map, every language value and every path the shortest-path routine may return, if the
+emitted subtable is shorter than 64 KiB then the independent decoder reads exactly the map.  (A
+subtable shorter than 64 KiB has fewer than 8190 segments, so segCountX2 cannot wrap.) -/
+theorem C09_fmt4_64k (m : M) (lang : Nat) (path : List Seg) (b : Bytes) (h : IsPath m 0 path)
+    (hb : encode m lang path = some b) (hl : b.length < 65536) :
+    ∀ c, c < 65536 → specLookupBytes b c = m c % 65536 :=
+  lookup_encode_64k m lang path b h hb hl
 
 /-- Header fields follow the OpenType formulae: format 4, segCountX2, searchRange =
 2·2^⌊log2 segCount⌋, entrySelector = ⌊log2 segCount⌋, rangeShift = segCountX2 − searchRange,
